@@ -41,6 +41,9 @@ func duplexStress(c *Ctx, who string) {
 			outErr    string
 			inErr     string
 			writerErr string
+			peerSent  chan struct{} // closed when the accessory side has taken every byte the peer sent
+			readDone  chan struct{} // closed when Read has handed all of them on
+			withheld  string
 		}
 		var sides []*side
 		ctx := hap.NewContextForSecuredDevice(nil)
@@ -48,7 +51,7 @@ func duplexStress(c *Ctx, who string) {
 		lens := []int{1, 2, 17, 100, 126, 127, 300, 1023, 1024, 1025, 2100}
 		for k := 0; k < nconn; k++ {
 			a, b := net.Pipe()
-			s := &side{peerRaw: b}
+			s := &side{peerRaw: b, peerSent: make(chan struct{}), readDone: make(chan struct{})}
 			// distinct remote addresses: the context keys sessions by them
 			ac := &addrConn{Conn: a, remote: fakeAddr(fmt.Sprintf("10.9.0.%d:%d", k+1, 5000+k))}
 			s.conn = hap.NewConnection(ac, ctx)
@@ -60,6 +63,11 @@ func duplexStress(c *Ctx, who string) {
 			s.peer = newRefControllerSession(shared[:])
 			for i := 0; i < 8+r.Intn(25); i++ {
 				s.inChunks = append(s.inChunks, randBytes(r, lens[r.Intn(len(lens))]))
+				s.in = append(s.in, s.inChunks[len(s.inChunks)-1]...)
+			}
+			if (round+k)%2 == 0 {
+				// the last message ends with a FULL frame and nothing follows (an HTTP client waiting for its answer)
+				s.inChunks = append(s.inChunks, randBytes(r, []int{1024, 2048}[r.Intn(2)]))
 				s.in = append(s.in, s.inChunks[len(s.inChunks)-1]...)
 			}
 			sides = append(sides, s)
@@ -107,6 +115,7 @@ func duplexStress(c *Ctx, who string) {
 				defer wg.Done()
 				<-start
 				buf := make([]byte, 4096)
+				defer close(s.readDone)
 				for len(s.gotIn) < len(s.in) {
 					n, err := s.conn.Read(buf)
 					s.gotIn = append(s.gotIn, buf[:n]...)
@@ -121,11 +130,17 @@ func duplexStress(c *Ctx, who string) {
 			go func() {
 				defer wg.Done()
 				<-start
-				for _, ch := range s.inChunks {
-					if _, err := s.peerRaw.Write(s.peer.Encrypt(ch)); err != nil {
+				for ci, ch := range s.inChunks {
+					var wire []byte
+					if ci%5 == 3 {
+						wire = s.peer.EmptyFrame() // a frame without data in between (sealed first: counters follow the wire order): skipped, not the end of the stream
+					}
+					wire = append(wire, s.peer.Encrypt(ch)...)
+					if _, err := s.peerRaw.Write(wire); err != nil {
 						return
 					}
 				}
+				close(s.peerSent)
 			}()
 			// peer: receives and decrypts everything the accessory writes
 			total := 0
@@ -163,6 +178,20 @@ func duplexStress(c *Ctx, who string) {
 		close(start)
 		done := make(chan struct{})
 		go func() { wg.Wait(); close(done) }()
+		// net.Pipe's Write returns when the other end has taken the bytes: once the peer has sent everything, handing the
+		// bytes on needs no further input. A Read which still has not delivered them 10 s later is waiting for bytes that
+		// the peer (which waits for its answer) will never send.
+		for k, s := range sides {
+			select {
+			case <-s.peerSent:
+				select {
+				case <-s.readDone:
+				case <-time.After(10 * time.Second):
+					s.withheld = fmt.Sprintf("connection %d: the accessory took all %d inbound bytes off the wire (the last message ends with a %d-byte chunk) but Read has not handed them on 10 s later", k, len(s.in), len(s.inChunks[len(s.inChunks)-1]))
+				}
+			case <-time.After(20 * time.Second):
+			}
+		}
 		select {
 		case <-done:
 		case <-time.After(20 * time.Second):
@@ -178,7 +207,7 @@ func duplexStress(c *Ctx, who string) {
 		in := map[string]interface{}{"connections": nconn, "writers_per_connection": nw, "writes_per_writer": nwr, "payload_lengths": plan}
 		for k, s := range sides {
 			if s.outErr != "" {
-				c.Violate(who+" duplex: the peer cannot decrypt what the accessory wrote while requests were arriving (and other connections were writing)", id, in, "every frame authenticates, in order", fmt.Sprintf("connection %d: %s", k, s.outErr))
+				c.Violate(who+" duplex: the peer cannot decrypt what the accessory wrote while requests were arriving (and other connections were writing)", id, in, "every frame authenticates, in order", fmt.Sprintf("connection %d: %s (inbound: %s; writers: %s)", k, s.outErr, s.inErr, s.writerErr))
 				continue
 			}
 			// parse the decrypted stream into whole payloads
@@ -196,6 +225,10 @@ func duplexStress(c *Ctx, who string) {
 				}
 				next[t]++
 				p = p[6+n:]
+			}
+			if s.withheld != "" {
+				c.Violate(who+" duplex: received bytes are withheld until more bytes arrive", id, in, "a complete frame is decrypted and handed on when it has arrived", s.withheld)
+				continue
 			}
 			if s.inErr != "" || !bytes.Equal(s.gotIn, s.in) {
 				c.Violate(who+" duplex: Read does not hand on exactly what the peer sent while the connection was also being written to", id, in, fmt.Sprintf("%d bytes as sent", len(s.in)),
